@@ -1,5 +1,7 @@
 import OutlineModel.Proofs.Replay
 import OutlineModel.Gen.Consts
+import OutlineModel.Gen.Wiring
+import OutlineModel.Model.Auth
 /-
 C07 — A client handshake is accepted at most once within the replay history.
 
@@ -73,6 +75,31 @@ theorem exactly_one_winner {N : Nat} (h : UInt32) (ops : List Op) (c : RC)
 theorem max_capacity (c : RC) (n : Int) (hn : n > (Gen.maxCapacity : Int)) :
     RC.new Gen.maxCapacity n = none ∧ c.resize Gen.maxCapacity n = (c, false) ∧ Gen.maxCapacity = 20000 := by
   refine ⟨by unfold RC.new; simp [hn], by unfold RC.resize; simp [hn], rfl⟩
+
+/-- **replay_is_refused_like_a_probe**: a remembered handshake gets ERR_REPLAY_CLIENT from the
+    authenticator (for any key list / client IP), and the handler treats every authentication error
+    — cipher, client replay, server replay — by the same branch (absorb, then return; generated fact). -/
+theorem replay_is_refused_like_a_probe (st : Auth.AuthState) (c : RC) (hc : st.cache = some c) (ip : Option Nat)
+    (valid : Nat → Bool) (srvSalt : CipherList.Entry → Bool) (hash : CipherList.Entry → UInt32) (e : CipherList.Entry) (i : Nat)
+    (hf : (CipherList.lookup st.list ip valid).2 = some (e, i)) (hs : srvSalt e = false)
+    (hmem : c.cap ≠ 0 ∧ (hash e ∈ c.active ∨ hash e ∈ c.archive)) :
+    (Auth.authenticate st ip true valid srvSalt hash).2.status = .errReplayClient ∧
+    Gen.Wiring.tcpAuthFailureIsAbsorbed = true := by
+  refine ⟨?_, by decide⟩
+  unfold Auth.authenticate
+  simp only [Bool.not_true, Bool.false_eq_true, if_false]
+  cases hl : CipherList.lookup st.list ip valid with
+  | mk list' found =>
+    rw [hl] at hf
+    simp only at hf
+    subst hf
+    have hadd := add_false_of_mem c (hash e) hmem.1 hmem.2
+    simp [hs, hc, addNilable, hadd]
+
+/-- **one_cache_for_the_process**: every service of every configuration generation is given the one
+    replay cache of the server object, and the server-salt test precedes the cache (generated facts). -/
+theorem one_cache_for_the_process : Gen.Wiring.singleReplayCache = true ∧ Gen.Wiring.authServerSaltBeforeReplayCache = true := by
+  decide
 
 /- non-vacuity: concrete non-trivial states meet the hypotheses -/
 example : ((run Gen.maxCapacity (({cap := 2, active := [], archive := []} : RC).add 7).1 [.add 8]).add 7).2 = false :=
